@@ -418,7 +418,16 @@ func (m *InterpModel) Call(mc *Machine, st *State, call ssa.CallInstruction, cal
 			}
 			return []Outcome{{Result: Unk, Apply: func(s *State) { m.Emit(s, e) }}}, true
 		case strings.HasPrefix(full, "fmt.Sprint"), full == "fmt.Errorf", full == "errors.New":
-			return []Outcome{{Result: Sym(callee.Name() + "(" + strings.Join(m.variadic(mc, st, args), ",") + ")")}}, true
+			res := Sym(callee.Name() + "(" + strings.Join(m.variadic(mc, st, args), ",") + ")")
+			if res.K != KSym {
+				res = Sym(callee.Name() + valName)
+			}
+			isErr := full != "fmt.Sprintf" && !strings.HasPrefix(full, "fmt.Sprint")
+			return []Outcome{{Result: res, Apply: func(s *State) {
+				if isErr {
+					s.Facts["c:("+res.S+" == nil)"] = BoolV(false) // a freshly created error value is never nil
+				}
+			}}}, true
 		case strings.Contains(full, "norm.Form).String"):
 			return []Outcome{{Result: Sym("NFC(" + args[len(args)-1].String() + ")")}}, true
 		case strings.Contains(full, "bufio") || (pkg == "os" && name != "Exit"):
@@ -442,6 +451,10 @@ func (m *InterpModel) Call(mc *Machine, st *State, call ssa.CallInstruction, cal
 			e := m.ev(in, "exit", argStrings(args), "")
 			return []Outcome{{Result: Unk, Stop: true, Apply: func(s *State) { m.Emit(s, e) }}}, true
 		}
+		if strings.Contains(full, "strings.Builder).Write") || strings.Contains(full, "bytes.Buffer).Write") {
+			e := m.ev(in, "bufwrite", append([]string{callee.Name()}, argStrings(args[1:])...), "")
+			return []Outcome{{Result: Unk, Apply: func(s *State) { m.Emit(s, e) }}}, true
+		}
 		// other library functions: pure
 		res := Sym(callee.Name() + "(" + strings.Join(argStrings(args), ",") + ")")
 		if v, ok := call.(ssa.Value); ok {
@@ -454,6 +467,9 @@ func (m *InterpModel) Call(mc *Machine, st *State, call ssa.CallInstruction, cal
 			}
 		}
 		return []Outcome{{Result: res}}, true
+	}
+	if m.MainMode && fnPkgName(callee) == "main" && !mainAnchors[callee.Name()] && len(st.Frames) < mc.MaxDepth-1 && !mc.onStack(st, callee) {
+		return nil, false // helper of package main: inline
 	}
 	if m.MainMode {
 		e := m.ev(in, "call", append([]string{m.p.FuncKey(callee)}, argStrings(args)...), "")
@@ -478,8 +494,12 @@ func (m *InterpModel) Call(mc *Machine, st *State, call ssa.CallInstruction, cal
 		}}}, true
 	}
 	// ---- module leaf value functions: an event with the raise fork; effectful helpers are inlined
-	if m.KeepAsEvent != nil && !m.KeepAsEvent(callee) {
-		return nil, false // inline
+	if m.KeepAsEvent != nil {
+		if !m.KeepAsEvent(callee) {
+			return nil, false // inline
+		}
+	} else if !coreLeaf[callee.Name()] && len(st.Frames) < mc.MaxDepth-1 && !mc.onStack(st, callee) {
+		return nil, false // a helper that is not one of the interpreter's core value functions: look inside it
 	}
 	if !ii.Effectful[callee] && callee != ii.Interpret && callee != ii.FuncCall {
 		was := m.raised(st)
@@ -605,6 +625,25 @@ func (m *InterpModel) Instr(mc *Machine, st *State, in ssa.Instruction, ops []AV
 	case *ssa.Lookup:
 		if _, isMap := x.X.Type().Underlying().(*types.Map); isMap {
 			m.Emit(st, m.ev(in, "maplookup", argStrings(ops), ""))
+		}
+	case *ssa.Index, *ssa.IndexAddr:
+		var base ssa.Value
+		if ix, ok := in.(*ssa.Index); ok {
+			base = ix.X
+		} else {
+			base = in.(*ssa.IndexAddr).X
+		}
+		if _, isSlice := base.Type().Underlying().(*types.Slice); isSlice && len(ops) == 2 && ops[1].K == KSym && !strings.HasPrefix(ops[1].S, "rangeidx:") {
+			e := m.ev(in, "index", argStrings(ops), "")
+			var fs []string
+			for k, v := range st.Facts {
+				if strings.HasPrefix(k, "c:") && strings.Contains(k, ops[1].S) {
+					fs = append(fs, k[2:]+"="+v.String())
+				}
+			}
+			sort.Strings(fs)
+			e.KV["facts"] = strings.Join(fs, ";")
+			m.Emit(st, e)
 		}
 	case *ssa.Next:
 		// outcome is decided at the following If; record the iteration source
@@ -844,6 +883,16 @@ func sortedKeysOf(m map[string]bool) []string {
 	return out
 }
 
+
+// coreLeaf: the value-level functions of the interpreter that rules refer to by name; every other module
+// function without effects is treated as a refactoring helper and inlined.
+var coreLeaf = map[string]bool{"evaluateBinary": true, "evaluateUnary": true, "stringify": true, "isTruthy": true, "toNumber": true, "toInt64": true,
+	"stringifyOperand": true, "isEqual": true, "NewFunction": true, "sortedKeys": true, "getLineNumber": true, "handleAddition": true,
+	"handleArithmetic": true, "handleComparison": true, "handleBitwise": true, "handleEquality": true, "ConvertBanglaDigitsToASCII": true,
+	"GlobalError": true, "GlobalErrorToken": true, "report": true, "NewToken": true}
+
+// mainAnchors: functions of package main that stay events in main mode (anything else there is a helper)
+var mainAnchors = map[string]bool{"run": true, "runFile": true, "runPrompt": true, "main": true}
 
 // TypeTest: an assertion of a Borno value (static type interface{}) to a concrete type that no
 // producer ever puts into the value universe can never succeed — such arms are dead code.
